@@ -1157,6 +1157,8 @@ def install(ex):
             lambda ex, st, args, kwargs, node: iter([(lit(_sq.quoter_name(args[0].obj)), st)]))
         add(_sq.requoter_of, "spec.requoter_of",
             lambda ex, st, args, kwargs, node: iter([(VConst(_sq.requoter_of(args[0].obj)), st)]))
+        add(_sq.skippable_text, "spec.skippable_text",
+            lambda ex, st, args, kwargs, node: iter([(ex.wrap(_sq.skippable_text(args[0].obj)), st)]))
         add(_sq.component_alphabet, "spec.component_alphabet",
             lambda ex, st, args, kwargs, node: iter([(ex.wrap(_sq.component_alphabet(args[0].obj)), st)]))
     except ImportError:
